@@ -14,6 +14,7 @@ template <>
 struct Traits<double> {
   static double make(int n, int d) { return (double)n / (double)(d < 1 ? 1 : d); }
   static bool same(const double &a, const double &b) { return std::memcmp(&a, &b, sizeof a) == 0; }
+  static constexpr bool exact_arith = false;
 };
 }  // namespace hist
 #include "hist_parts.h"
